@@ -5,7 +5,9 @@ use crate::{
     lsp_state::LspState,
     uri_file_path_ext::UriFilePathExt,
 };
-use common_lang_types::{EntityName, Span, relative_path_from_absolute_and_working_directory};
+use common_lang_types::{
+    EmbeddedLocation, EntityName, Span, relative_path_from_absolute_and_working_directory,
+};
 use isograph_lang_types::{
     ClientObjectSelectableNameWrapperParent, ClientScalarSelectableNameWrapperParent,
     DefinitionLocation, IsographResolvedNode,
@@ -179,13 +181,7 @@ pub fn on_goto_definition_impl<TCompilationProfile: CompilationProfile>(
                 };
 
                 selectable_definition_location(db, parent_type_name.0, wrapper.inner.0)
-                    .and_then(|location| {
-                        isograph_location_to_lsp_location(
-                            db,
-                            location,
-                            &db.get_schema_source().content,
-                        )
-                    })
+                    .and_then(|location| client_declaration_location_to_lsp_location(db, location))
                     .map(lsp_location_to_scalar_response)
             }
             IsographResolvedNode::ClientObjectSelectableNameWrapper(object_wrapper_path) => {
@@ -198,13 +194,7 @@ pub fn on_goto_definition_impl<TCompilationProfile: CompilationProfile>(
                 };
 
                 selectable_definition_location(db, parent_type_name.0, object_wrapper_path.inner.0)
-                    .and_then(|location| {
-                        isograph_location_to_lsp_location(
-                            db,
-                            location,
-                            &db.get_schema_source().content,
-                        )
-                    })
+                    .and_then(|location| client_declaration_location_to_lsp_location(db, location))
                     .map(lsp_location_to_scalar_response)
             }
             IsographResolvedNode::SelectionSet(_) => None,
@@ -220,6 +210,23 @@ pub fn on_goto_definition_impl<TCompilationProfile: CompilationProfile>(
     };
 
     goto_response.wrap_ok()
+}
+
+/// The location of a client field or pointer declaration is relative to the file
+/// containing its iso literal (not to the schema), so that file's text must be used.
+fn client_declaration_location_to_lsp_location<TCompilationProfile: CompilationProfile>(
+    db: &IsographDatabase<TCompilationProfile>,
+    location: EmbeddedLocation,
+) -> Option<lsp_types::Location> {
+    let iso_literals_source = read_iso_literals_source_from_relative_path(
+        db,
+        location.text_source.relative_path_to_source_file,
+    );
+    let content = match iso_literals_source.as_ref() {
+        Some(source) => source.content.reference(),
+        None => db.get_schema_source().content.reference(),
+    };
+    isograph_location_to_lsp_location(db, location, content)
 }
 
 fn lsp_location_to_scalar_response(location: lsp_types::Location) -> GotoDefinitionResponse {
